@@ -23,6 +23,7 @@ type vhList struct {
 	Slice                          func(l any) any
 	Len                            func(l any) int
 	At                             func(l any, i int) any
+	IsRes                          func(r any) bool // the value is a list of the item type
 	ResLen                         func(r any) int
 	ResAt                          func(r any, i int) any
 	SetItems                       func(l any, r any)
@@ -192,6 +193,35 @@ func (l *vhList) fillList(name string, lst any, max int, fields []string) {
 		max = -1
 	}
 	verifrt.Fill(name, l.Items(lst), verifrt.Spec{MaxLen: max, Depth: 3, Only: fields, Skip: []string{"TimePeriodType"}, MaxUint: 999})
+	for i := 0; i < l.Len(lst); i++ {
+		l.assumeWellFormedKeys(l.At(lst, i))
+	}
+}
+
+// Address-typed identifiers (device / entity / feature address) are compared by the implementation through
+// their text form, in which an absent device and an empty device string coincide and an address without
+// anything in it is no identifier at all. Such degenerate addresses are not valid SPINE addresses and are
+// left out: a device part, where present, is a non-empty string, and a device address has its device part.
+func (l *vhList) assumeWellFormedKeys(item any) {
+	for i, k := range l.Keys {
+		if i >= len(l.KeyKinds) || l.KeyKinds[i] != "struct" {
+			continue
+		}
+		f := vhF(item, k)
+		if verifrt.Concrete(f.IsNil()) {
+			continue
+		}
+		d := f.Elem().FieldByName("Device")
+		if !d.IsValid() {
+			continue
+		}
+		if f.Elem().NumField() == 1 {
+			verifrt.Assume(!d.IsNil())
+		}
+		if verifrt.Concrete(!d.IsNil()) {
+			verifrt.Assume(d.Elem().String() != "")
+		}
+	}
 }
 
 // assumeInvariant: every item has all identifiers, identifiers pairwise distinct, ascending when numeric.
